@@ -59,18 +59,21 @@ func VerifRecordIO(on bool) {
 	defer verifIOMu.Unlock()
 	verifIOOn = on
 	verifIOLog = nil
-	if !on {
-		verifHookIO, verifHookWalIO = nil, nil
-		return
-	}
+	// the hooks stay installed: they also feed the order trace (zz_verif_order.go)
 	verifHookIO = func(f *fileStore, kind string, off int64, b []byte) {
+		verifOrderIO(kind, off, b)
 		verifIOMu.Lock()
-		verifIOLog = append(verifIOLog, VerifIO{File: "tbl", Kind: kind, Off: off, Data: append([]byte(nil), b...)})
+		if verifIOOn {
+			verifIOLog = append(verifIOLog, VerifIO{File: "tbl", Kind: kind, Off: off, Data: append([]byte(nil), b...)})
+		}
 		verifIOMu.Unlock()
 	}
 	verifHookWalIO = func(w *wal, kind string, b []byte) {
+		verifOrderWalIO(kind, b)
 		verifIOMu.Lock()
-		verifIOLog = append(verifIOLog, VerifIO{File: "wal", Kind: kind, Data: append([]byte(nil), b...)})
+		if verifIOOn {
+			verifIOLog = append(verifIOLog, VerifIO{File: "wal", Kind: kind, Data: append([]byte(nil), b...)})
+		}
 		verifIOMu.Unlock()
 	}
 }
